@@ -17,10 +17,11 @@ EXPLANATION = (
     "_milestone_rungs(skip_rungs) with skip_rungs derived from the trial's bracket, highest rung first, stopping at the first "
     "rung reached; S6 the default answer at max_t is 'does not continue' and only resources below max_t consult the rung "
     "system; the scheduler maps 'does not continue' to STOP for stopping-type; S7 promotion quantiles are level / next "
-    "level (zip of the level list with its shift extended by max_t); S8 RUSH only sharpens (conjunction with the base "
-    "decision). NOT decided: Rung.quantile equals numpy.quantile (arithmetic), rounding of r_min * eta^k.")
+    "level (zip of the level list with its shift extended by max_t), and a rung level is the rounding of a closed form in "
+    "(r_min, eta, k) - no already rounded level is scaled and rounded again; S8 RUSH only sharpens (conjunction with the base "
+    "decision). NOT decided: Rung.quantile equals numpy.quantile (arithmetic), the closed form of the levels itself.")
 
-FLOOR = {"S1": 1, "S2": 4, "S3": 3, "S4": 1, "S5": 3, "S6": 3, "S7": 2, "S8": 3}
+FLOOR = {"S1": 1, "S2": 4, "S3": 3, "S4": 1, "S5": 3, "S6": 3, "S7": 4, "S8": 3}
 
 MODE_FLAGS = (("self._is_min", "min"),)
 
@@ -156,8 +157,11 @@ def s5(ctx, rep):
             "after a decision at one rung the scan continues to lower rungs", witness=cfg.describe_path(p) if p else None)
     g = P.method("RungSystem", "_milestone_rungs")
     rv = [U(r.value) for r in returns_of(g)]
-    ok = set(rv) == {"self._rungs[:-skip_rungs]", "self._rungs"} and \
-        any(isinstance(n, ast.If) and ("lt", "0", "skip_rungs") in atoms_of(n.test, True) for n in walk_shallow(g.node))
+    from .c01 import _dom_atoms
+    cg = cfg_of(g)
+    sliced = [n.id for n in cg.nodes if n.kind == "stmt" and isinstance(n.ast, ast.Return) and n.ast.value is not None
+              and U(n.ast.value) == "self._rungs[:-skip_rungs]"]
+    ok = set(rv) == {"self._rungs[:-skip_rungs]", "self._rungs"} and len(sliced) == 1 and ("lt", "0", "skip_rungs") in _dom_atoms(cg, sliced[0])
     rep.put(ok, "S5", "agreement", "RungSystem._milestone_rungs drops the skip_rungs lowest rungs (list is highest first)", g, None, str(rv))
     init = P.method("RungSystem", "__init__")
     ok = any(isinstance(x, ast.Call) and fn_name(x) == "reversed" and "zip(rung_levels, promote_quantiles)" in U(x) for x in walk_shallow(init.node))
@@ -292,6 +296,33 @@ def s8(ctx, rep, clause="S8"):
     rep.put(ok, clause, "parity", "RUSHDecider._return_better: min/max arms are a dual pair", rb, ifs[0] if ifs else None, "")
 
 
+def s9(ctx, rep):
+    """rung level k is the rounding of the closed form r_min * eta^k: no rounded value is scaled and rounded again."""
+    from ..engine import flows_into
+    P = ctx.P
+    f = P.func("syne_tune.optimizer.schedulers.utils.successive_halving.successive_halving_rung_levels")
+
+    def is_round(y):
+        return isinstance(y, ast.Call) and fn_name(y) in ("round", "int", "floor", "ceil", "rint", "around", "trunc")
+    n = 0
+    for c in [x for x in walk_shallow(f.node) if is_round(x) and x.args]:
+        n += 1
+        bad = None
+        for y in ast.walk(c.args[0]):
+            if isinstance(y, ast.BinOp) and isinstance(y.op, (ast.Mult, ast.Pow, ast.Div, ast.FloorDiv)):
+                for side in (y.left, y.right):
+                    if any(is_round(z) for z in ast.walk(side)):
+                        continue    # int(round(a * b)): the nesting itself
+                    if flows_into(f, side, is_round):
+                        bad = (y, side)
+        rep.put(bad is None, "S7", "taint", f"successive_halving_rung_levels: `{U(c)[:50]}` rounds a closed form, not an already rounded level", f, c, "",
+                f"`{U(bad[0]) if bad else ''}`: `{U(bad[1]) if bad else ''}` is itself the result of a rounding, then scaled and rounded again - rounding "
+                "errors accumulate from level to level, so for a non-integer reduction factor the levels are not round(r_min * eta^k) and "
+                "decisions are taken at the wrong resource levels with the wrong quantiles")
+    if n == 0:
+        raise AnchorError("successive_halving_rung_levels: no rounding found (levels no longer integers?)")
+
+
 def run(ctx, rep, tier="quick"):
     s1(ctx, rep)
     s2(ctx, rep)
@@ -301,3 +332,4 @@ def run(ctx, rep, tier="quick"):
     s6(ctx, rep)
     s7(ctx, rep)
     s8(ctx, rep)
+    s9(ctx, rep)
